@@ -365,7 +365,7 @@ def get_plan(pid):
                         trusted_base=["meta-lemma: memoising a deterministic f under key equality is unobservable iff key-equal arguments give observationally equal results",
                                       "parameter/field annotations of the memoised functions are truthful (used only to resolve method names to class families)",
                                       "whitelisted lazy cache MarkerExpression._specifier: filled from the compared fields by `specifier`; the one place that installs it from outside, from_specifier, is under "
-                                      "the obligation C10.from_specifier.installed-view-is-spelled-as-the-value (the installed view is the one the atom's own text gives, in spelling too)",
+                                      "the obligation C10.from_specifier.installed-view-is-the-one-the-text-gives (no view is installed, or it is a one-bound range whose bound is the value's own text; a parsed specifier carrying its text)",
                                       "law.C13 (equal keys are interchangeable) and C02 (meaning of results) supply the 'meaning' half"],
                         explanation="proof part: for each lru_cache'd function (found by scanning the real source, so a newly memoised function is analysed too) the read-set obligations are decided statically; "
                                     "bounded part: probe operations observed cold and after generated histories, incl. key-equal-but-differently-built operands, merged results spelled differently "
